@@ -135,13 +135,14 @@ fn gen_view(rng: &mut SmallRng, m: &Model, ints_only: bool) -> V {
         if ints_only && m.is_bool[var] {
             continue;
         }
+        let big = std::env::var("BIG").is_ok();
         let s = match rng.gen_range(0..10) {
             0..=5 => 1,
             6..=7 => -1,
-            8 => 2,
-            _ => -2,
+            8 => if big { [2, 3, 1000, 32768, 65536][rng.gen_range(0..5)] } else { 2 },
+            _ => if big { -[2, 3, 1000, 32768, 65536][rng.gen_range(0..5)] } else { -2 },
         };
-        let o = if rng.gen_range(0..4) == 0 { rng.gen_range(-2..3) } else { 0 };
+        let o = if rng.gen_range(0..4) == 0 { if big { [-(1i64 << 30), 1 << 30, 1 << 16, -3][rng.gen_range(0..4)] } else { rng.gen_range(-2..3) } } else { 0 };
         return V { var, s, o };
     }
 }
@@ -149,7 +150,18 @@ fn gen_model(rng: &mut SmallRng, kinds: &str) -> Model {
     let nv = rng.gen_range(2..6);
     let nb = rng.gen_range(1..3);
     let mut m = Model { doms: vec![], is_bool: vec![], sparse: vec![], cons: vec![] };
+    let big = std::env::var("BIG").is_ok();
     for _ in 0..nv {
+        if big {
+            let bases: [i64; 9] = [0, 1 << 15, -(1 << 15), 1 << 16, 46340, 1 << 30, -(1 << 30), (1 << 31) - 4, -(1 << 31) + 2];
+            let lo = bases[rng.gen_range(0..bases.len())] + rng.gen_range(-1..2);
+            let lo = lo.max(-(1i64 << 31) + 1);
+            let hi = (lo + rng.gen_range(0..3)).min((1i64 << 31) - 1);
+            m.doms.push((lo..=hi).collect());
+            m.sparse.push(false);
+            m.is_bool.push(false);
+            continue;
+        }
         if rng.gen_range(0..4) == 0 {
             let mut d: Vec<i64> = (-3..6).filter(|_| rng.gen_range(0..2) == 0).collect();
             if d.is_empty() {
@@ -177,7 +189,8 @@ fn gen_model(rng: &mut SmallRng, kinds: &str) -> Model {
         let k = kinds[rng.gen_range(0..kinds.len())];
         let n = rng.gen_range(1..4);
         let terms: Vec<V> = (0..n).map(|_| gen_view(rng, &m, false)).collect();
-        let rhs = rng.gen_range(-4..7);
+        let rhs = if std::env::var("BIG").is_ok() { [0i64, 1 << 16, 1 << 30, -(1 << 30), (1 << 31) - 1, -(1 << 31) + 1, 5][rng.gen_range(0..7)] + rng.gen_range(-2..3) } else { rng.gen_range(-4..7) };
+        let rhs = rhs.clamp(-(1i64 << 31) + 1, (1i64 << 31) - 1);
         let c = match k {
             "le" => C::LinLe(terms, rhs),
             "eq" => C::LinEq(terms, rhs),
@@ -574,6 +587,145 @@ fn run_interrupt(m: &Model, seed: u64) -> Result<String, String> {
     Ok("ok".into())
 }
 
+fn run_history(m: &Model, seed: u64) -> Result<String, String> {
+    use pumpkin_solver::results::SatisfactionResult;
+    use pumpkin_solver::results::SatisfactionResultUnderAssumptions as R2;
+    let (mut s, xs, _) = build(m, seed, 0);
+    let mut rng = SmallRng::seed_from_u64(seed ^ 0x1234);
+    let mut posted = 0usize;
+    let mut infeasible = false;
+    let mut blocked: BTreeSet<Vec<i64>> = BTreeSet::new();
+    let mut trace = vec![];
+    let cur = |posted: usize, blocked: &BTreeSet<Vec<i64>>| -> BTreeSet<Vec<i64>> {
+        let pm = Model { doms: m.doms.clone(), is_bool: m.is_bool.clone(), sparse: m.sparse.clone(), cons: m.cons[..posted].to_vec() };
+        enumerate(&pm).difference(blocked).cloned().collect()
+    };
+    for _step in 0..10 {
+        let op = rng.gen_range(0..5);
+        match op {
+            0 if posted < m.cons.len() => {
+                let r = post_one(&mut s, &xs, &m.cons[posted], posted as u32 + 1);
+                posted += 1;
+                trace.push(format!("post{}={}", posted, r.is_ok()));
+                let sols = cur(posted, &blocked);
+                if r.is_err() { if !sols.is_empty() { return Err(format!("post-err-but-sat [{}]", trace.join(" "))); } infeasible = true; }
+                else if infeasible { return Err(format!("post-ok-after-infeasible [{}]", trace.join(" "))); }
+            }
+            1 | 0 => {
+                let sols = cur(posted, &blocked);
+                let mut b = s.default_brancher();
+                let mut t = Budget(2_000_000);
+                match s.satisfy(&mut b, &mut t) {
+                    SatisfactionResult::Satisfiable(sol) => { trace.push("sat".into()); if !sols.contains(&read(&sol, &xs)) { return Err(format!("satisfy: non-solution-or-blocked [{}]", trace.join(" "))); } }
+                    SatisfactionResult::Unsatisfiable => { trace.push("unsat".into()); if !sols.is_empty() { return Err(format!("satisfy: unsat-but-sat [{}]", trace.join(" "))); } }
+                    SatisfactionResult::Unknown => return Err("budget".into()),
+                }
+            }
+            2 => {
+                let sols = cur(posted, &blocked);
+                let na = rng.gen_range(1..3);
+                let ass: Vec<_> = (0..na).map(|_| gen_pred(&mut rng, m, &xs)).collect();
+                let preds: Vec<_> = ass.iter().map(|a| a.0).collect();
+                let under: Vec<&Vec<i64>> = sols.iter().filter(|a| ass.iter().all(|(_, i, k, v)| pred_holds(*k, *v, a[*i]))).collect();
+                let mut b = s.default_brancher();
+                let mut t = Budget(2_000_000);
+                match s.satisfy_under_assumptions(&mut b, &mut t, &preds) {
+                    R2::Satisfiable(sol) => { trace.push("asat".into()); if !under.contains(&&read(&sol, &xs)) { return Err(format!("assume: wrong-sat [{}]", trace.join(" "))); } }
+                    R2::Unsatisfiable => { trace.push("aunsat".into()); if !sols.is_empty() { return Err(format!("assume: unsat-but-sat [{}]", trace.join(" "))); } }
+                    R2::UnsatisfiableUnderAssumptions(_) => { trace.push("aunsatass".into()); if !under.is_empty() { return Err(format!("assume: unsat-under-but-sat [{}]", trace.join(" "))); } }
+                    R2::Unknown => return Err("budget".into()),
+                };
+            }
+            _ => {
+                let sols = cur(posted, &blocked);
+                let k = rng.gen_range(1..4);
+                let mut b = s.default_brancher();
+                let mut t = Budget(2_000_000);
+                let mut yielded: Vec<Vec<i64>> = vec![];
+                let mut finished = false;
+                {
+                    let mut it = s.get_solution_iterator(&mut b, &mut t);
+                    for _ in 0..k {
+                        match it.next_solution() {
+                            IteratedSolution::Solution(sol, _, _) => { let a = read(&sol, &xs); if !sols.contains(&a) || yielded.contains(&a) { return Err(format!("iterate: bad-solution [{}]", trace.join(" "))); } yielded.push(a); }
+                            IteratedSolution::Finished => { finished = true; if yielded.len() != sols.len() { return Err(format!("iterate: finished-early [{}]", trace.join(" "))); } break; }
+                            IteratedSolution::Unsatisfiable => { finished = true; if !sols.is_empty() { return Err(format!("iterate: unsat-but-sat [{}]", trace.join(" "))); } break; }
+                            IteratedSolution::Unknown => return Err("budget".into()),
+                        }
+                    }
+                }
+                trace.push(format!("iter{}{}", yielded.len(), if finished { "F" } else { "" }));
+                let n = yielded.len();
+                for (i, a) in yielded.into_iter().enumerate() { if finished || i + 1 < n { let _ = blocked.insert(a); } }
+                if finished && n > 0 { infeasible = true; }
+            }
+        }
+    }
+    Ok("ok".into())
+}
+
+struct Chk<B> { inner: B, vars: Vec<DomainId>, bad: std::rc::Rc<std::cell::RefCell<Vec<String>>>, decisions: u64 }
+impl<B: pumpkin_solver::branching::Brancher> pumpkin_solver::branching::Brancher for Chk<B> {
+    fn next_decision(&mut self, c: &mut pumpkin_solver::branching::SelectionContext) -> Option<pumpkin_solver::predicates::Predicate> {
+        let d = self.inner.next_decision(c);
+        match d {
+            Some(p) => {
+                self.decisions += 1;
+                if c.is_predicate_assigned(p) { self.bad.borrow_mut().push(format!("assigned-decision")); }
+                if !self.vars.contains(&p.get_domain()) { self.bad.borrow_mut().push("foreign-variable".into()); }
+            }
+            None => { if self.vars.iter().any(|v| !c.is_integer_fixed(*v)) { self.bad.borrow_mut().push("none-with-unfixed".into()); } }
+        }
+        d
+    }
+    fn on_conflict(&mut self) { self.inner.on_conflict() }
+    fn on_backtrack(&mut self) { self.inner.on_backtrack() }
+    fn on_solution(&mut self, s: pumpkin_solver::results::SolutionReference) { self.inner.on_solution(s) }
+    fn on_unassign_integer(&mut self, v: DomainId, x: i32) { self.inner.on_unassign_integer(v, x) }
+    fn on_appearance_in_conflict_predicate(&mut self, p: pumpkin_solver::predicates::Predicate) { self.inner.on_appearance_in_conflict_predicate(p) }
+    fn on_restart(&mut self) { self.inner.on_restart() }
+    fn is_restart_pointless(&mut self) -> bool { self.inner.is_restart_pointless() }
+    fn subscribe_to_events(&self) -> Vec<pumpkin_solver::branching::BrancherEvent> { self.inner.subscribe_to_events() }
+}
+fn run_branch(m: &Model, seed: u64) -> Result<String, String> {
+    use pumpkin_solver::branching::branchers::independent_variable_value_brancher::IndependentVariableValueBrancher as IVV;
+    use pumpkin_solver::branching::value_selection::*;
+    use pumpkin_solver::branching::variable_selection::*;
+    let sols = enumerate(m);
+    let vi = (seed % 10) as usize; let wi = ((seed / 10) % 14) as usize;
+    let (mut s, xs, inf) = build(m, seed, m.cons.len());
+    if inf { return Ok("ok".into()); }
+    let vars: Vec<DomainId> = xs.iter().map(|x| match x { X::I(d) => *d, X::B(l) => l.get_true_predicate().get_domain() }).collect();
+    let occ: Vec<u32> = vars.iter().map(|_| 1 + (seed % 3) as u32).collect();
+    let vs: Box<dyn VariableSelector<DomainId>> = match vi {
+        0 => Box::new(AntiFirstFail::new(&vars)), 1 => Box::new(FirstFail::new(&vars)), 2 => Box::new(InputOrder::new(&vars)), 3 => Box::new(Largest::new(&vars)),
+        4 => Box::new(MaxRegret::new(&vars)), 5 => Box::new(FirstFail::new(&vars)), 6 => Box::new(Occurrence::new(&vars, &occ)),
+        7 => Box::new(ProportionalDomainSize::new(&vars)), 8 => Box::new(RandomSelector::new(vars.clone())), _ => Box::new(Smallest::new(&vars)),
+    };
+    let ws: Box<dyn ValueSelector<DomainId>> = match wi {
+        0 => Box::new(InDomainInterval), 1 => Box::new(InDomainMax), 2 => Box::new(InDomainMedian), 3 => Box::new(InDomainMiddle), 4 => Box::new(InDomainMin), 5 => Box::new(InDomainRandom),
+        6 => Box::new(InDomainSplit), 7 => Box::new(InDomainSplitRandom), 8 => Box::new(OutDomainMax), 9 => Box::new(OutDomainMedian), 10 => Box::new(OutDomainMin), 11 => Box::new(OutDomainRandom),
+        12 => Box::new(RandomSplitter), _ => Box::new(ReverseInDomainSplit),
+    };
+    let bad = std::rc::Rc::new(std::cell::RefCell::new(vec![]));
+    let mut b = Chk { inner: IVV::new(DynamicVariableSelector::new(vs), DynamicValueSelector::new(ws)), vars: vars.clone(), bad: bad.clone(), decisions: 0 };
+    let mut t = Budget(2_000_000);
+    let mut out = BTreeSet::new();
+    {
+        let mut it = s.get_solution_iterator(&mut b, &mut t);
+        loop {
+            match it.next_solution() {
+                IteratedSolution::Solution(sol, _, _) => { let _ = out.insert(read(&sol, &xs)); }
+                IteratedSolution::Finished | IteratedSolution::Unsatisfiable => break,
+                IteratedSolution::Unknown => return Err(format!("v{vi} w{wi} budget")),
+            }
+        }
+    }
+    if let Some(e) = bad.borrow().first() { return Err(format!("v{vi} w{wi} {e}")); }
+    if out != sols { return Err(format!("v{vi} w{wi} set-mismatch")); }
+    Ok("ok".into())
+}
+
 fn run_opt(m: &Model, seed: u64) -> Result<String, String> {
     use pumpkin_solver::optimisation::linear_sat_unsat::LinearSatUnsat;
     use pumpkin_solver::optimisation::linear_unsat_sat::LinearUnsatSat;
@@ -634,10 +786,10 @@ fn main() {
             nontrivial += 1;
         }
         if let Ok(mode) = std::env::var("MODE") {
-            let got = std::panic::catch_unwind(|| match mode.as_str() { "opt" => run_opt(&m, seed), "bounds" => run_bounds(&m, seed), "assume" => run_assume(&m, seed), "interrupt" => run_interrupt(&m, seed), _ => panic!("mode") });
+            let got = std::panic::catch_unwind(|| match mode.as_str() { "opt" => run_opt(&m, seed), "bounds" => run_bounds(&m, seed), "assume" => run_assume(&m, seed), "interrupt" => run_interrupt(&m, seed), "history" => run_history(&m, seed), "branch" => run_branch(&m, seed), _ => panic!("mode") });
             let sig = match got {
                 Ok(Ok(_)) => continue,
-                Ok(Err(e)) => format!("ERR {e}"),
+                Ok(Err(e)) => format!("ERR {}", e.split(" [").next().unwrap()),
                 Err(p) => { let msg = p.downcast_ref::<String>().cloned().or(p.downcast_ref::<&str>().map(|s| s.to_string())).unwrap_or_default(); format!("PANIC {}", msg.chars().take(90).collect::<String>()) }
             };
             bad += 1;
